@@ -14,9 +14,12 @@ FALSY_CONTAINERS = ('dict', 'list', 'set', 'frozenset', 'Mapping', 'Sequence', '
 MATCH_API = {'match_single', 'match', 'matches', 'assert_matches', 'unwrap', 'extract', 'deconstruct'}
 SCOPE = {'pattern', 'tautology', 'proofs.kore', 'proofs.definedness', 'proofs.propositional', 'proofs.substitution'}
 # Optional values whose truthiness test is intended: (module, function, expression) -> reason
+# keyed by the rename-stable text of the tested value and the testing construct (core/localkeys.py: names bound in the function masked)
 INTENDED = {
-    ('k.kore_convertion.language_semantics', 'count_simplifications', 'children'): 'no children and "not a constructor" are both "nothing to count"',
-    ('pattern', 'match_single', 'extend'): 'an empty seed and no seed both start from the empty substitution',
+    ('k.kore_convertion.language_semantics', 'count_simplifications', 'def:Pattern.unwrap(_) @ if _: for _ in _: _ += self.count_simplifications(_)'):
+        '(`children`) no children and "not a constructor" are both "nothing to count"',
+    ('pattern', 'match_single', 'expr:_ @ _ if _ else {}'): '(`extend`) an empty seed and no seed both start from the empty substitution',
+    ('pattern', 'match_single', 'expr:_ @ _ or {}'): '(`extend`) an empty seed and no seed both start from the empty substitution',
 }
 
 
@@ -238,7 +241,8 @@ def lint(ctx, py: PyRepo):
                             pass
                     n_sites += 1
                     short = sqn.split('.')[-1] if '.' in sqn else sqn
-                    key = (mname, short, label)
+                    from ..core.localkeys import masked, stable_key
+                    key = (mname, short, stable_key(sfn, e.target if isinstance(e, ast.NamedExpr) else e) + ' @ ' + ' '.join(masked(sfn, node).split()))
                     if key in INTENDED and falsy:
                         ctx.ob('optional-truthiness', f'{mname}.{sqn}:{label}', True,
                                f'intended emptiness test: {INTENDED[key]}', py.where(mname, node), facts={'type': ann, 'triaged': True})
@@ -252,8 +256,8 @@ def lint(ctx, py: PyRepo):
 
 
 def ms_paths(py: PyRepo):
-    """value-level paths of match_single: loops over a literal tuple of constructors unrolled, non-recursive loop-free helpers of the
-    module evaluated in place"""
+    """value-level paths of match_single: loops over a literal tuple of constructors unrolled, loop-free helpers of the module
+    evaluated in place (a helper may call match_single back - that call stays a recursive call - but not itself)"""
     from ..core.pyeval import PyEval, unroll_constant_loops
     fn0 = py.function('pattern', 'match_single')
     fn = unroll_constant_loops(fn0)
@@ -262,7 +266,7 @@ def ms_paths(py: PyRepo):
     def resolver(call, env, _ev):
         if isinstance(call.func, ast.Name) and call.func.id in mi.functions and call.func.id != fn0.name:
             g = mi.functions[call.func.id]
-            calls_self = any(isinstance(n, ast.Call) and isinstance(n.func, ast.Name) and n.func.id in (g.name, fn0.name) for n in ast.walk(g))
+            calls_self = any(isinstance(n, ast.Call) and isinstance(n.func, ast.Name) and n.func.id == g.name for n in ast.walk(g))
             if not calls_self and not any(isinstance(n, (ast.For, ast.While)) for n in ast.walk(g)):
                 return g, None
         return None
